@@ -10,8 +10,8 @@ import numpy as np
 from vlib import core, dom, rescorr
 
 ID = "C10"
-PROPS = ["C10_nostale.v"]
-GEN = []
+PROPS = ["C10_nostale.v", "C10_signatures.v"]
+GEN = ["reservoir"]
 
 # grids: 1 = A, 2 = B (same length as A), 3 = C (other length); schedules 0/1 belong to grids A/B, 2 to C
 GRIDS = {1: np.linspace(0, 2.0, 9) ** 2 / 2.0, 2: np.linspace(0, 3.0, 9), 3: np.linspace(0, 1.0, 6)}
